@@ -67,6 +67,19 @@ Definition reason_eqb (a b : reason) : bool :=
   | _, _ => false
   end.
 
+(* the same rectangles in any order: the property promises that every input region is reported
+   unchanged with its tag, not the order of the lists *)
+Fixpoint remove_rect (x : Rect) (l : list Rect) : option (list Rect) :=
+  match l with
+  | [] => None
+  | y :: l' => if rect_eqb x y then Some l' else option_map (cons y) (remove_rect x l')
+  end.
+Fixpoint bag_eqb (a b : list Rect) : bool :=
+  match a with
+  | [] => match b with [] => true | _ => false end
+  | x :: a' => match remove_rect x b with Some b' => bag_eqb a' b' | None => false end
+  end.
+
 (* the implementation accepted and reported these four lists *)
 Definition agree_accept (eps aeps deps tin : Qc) (d : desc) (G S B Fx : list Rect) : bool :=
   match parse d with
@@ -80,8 +93,7 @@ Definition agree_accept (eps aeps deps tin : Qc) (d : desc) (G S B Fx : list Rec
       | Some gs =>
           match die_with_cover eps aeps deps tin d gs with
           | Accept g s b f =>
-              list_eqb rect_eqb g G && list_eqb rect_eqb s S && list_eqb rect_eqb b B &&
-              list_eqb rect_eqb f Fx &&
+              list_eqb rect_eqb g G && bag_eqb s S && bag_eqb b B && bag_eqb f Fx &&
               (if strict_b eps w h ins then tiles_b (s ++ g ++ b ++ f) (die_rect w h) else true)
           | Reject _ => false
           end
